@@ -132,8 +132,21 @@ def empty_sched_on_edge(tree):
     return False
 
 
+# rendered (and discarded) before every case, so that state leaking from one
+# dot_format() call to the next shows up inside one self-contained, replayable
+# case instead of depending on which trees a worker happened to see before
+PROVOKE = [dict(J('pa'), forever=True, critical=True),
+           dict(N('pn', [dict(J('px'), forever=True)]), forever=True,
+                critical=True, req=['pa']),
+           dict(J('pb'), req=['pn', 'pa'])]
+
+
 def check_dot(tree, toppure):
     msgs = []
+    try:
+        build(copy.deepcopy(PROVOKE), toppure)[0].dot_format()
+    except Exception:
+        pass
     top, objs = build(tree, toppure)
     try:
         text = top.dot_format()
